@@ -8,12 +8,12 @@ import (
 
 // Val is the symbolic value of an SSA value or contract expression.
 type Val struct {
-	T    string     // SMT term
-	Sort string     // SMT sort of T
-	Typ  types.Type // Go type (nil for pure spec values)
-	Tup  []Val      // tuple components
-	Addr *Addr      // non-materialised address (pointer into a field/element)
-	MaybeElt bool   // a pointer term that may denote a slice element (Elt arr idx)
+	T        string     // SMT term
+	Sort     string     // SMT sort of T
+	Typ      types.Type // Go type (nil for pure spec values)
+	Tup      []Val      // tuple components
+	Addr     *Addr      // non-materialised address (pointer into a field/element)
+	MaybeElt bool       // a pointer term that may denote a slice element (Elt arr idx)
 }
 
 const (
